@@ -105,7 +105,29 @@ def check_answer(what, outcome):
     return None
 
 
+_fuzz = []
+
+
+def replay_environ(shown):
+    """re-run an environ recorded by the fuzzing oracle"""
+    if not _fuzz:
+        _fuzz.append(fuzz_app())
+    env = {k: v for k, v in shown.items() if k != "wsgi.input"}
+    env["wsgi.input"] = io.BytesIO(bytes.fromhex(shown.get("wsgi.input", "")) if shown.get("wsgi.input") not in (None, ".") else b"")
+    env["wsgi.errors"] = io.StringIO()
+    calls = []
+    try:
+        chunks = list(_fuzz[0](env, lambda s, h: calls.append((s, h))))
+        outcome = ("answered", calls, chunks) if calls else ("silent", chunks)
+    except BaseException as err:
+        outcome = ("escaped", err, calls)
+    bad = check_answer("environ", outcome)
+    return [Violation("c01-environ", shown, bad)] if bad else []
+
+
 def oracle(case):
+    if isinstance(case, dict):
+        return replay_environ(case)
     try:
         trace, outcome, _ = W.run_case(case)
     except Exception as err:
